@@ -13,6 +13,9 @@
 (* the client's handling of it are folded into the sending action: the     *)
 (* client's handlers read only the PDU and the client's own state, so each *)
 (* interleaving with source updates is equivalent to this one.             *)
+(* ConnLost (when Faults): the transport dies while the client waits for or *)
+(* receives a response; the step fails, nothing is handed to the target    *)
+(* and the client keeps the state it had (FailAtomic).                     *)
 (* SrvMax is the highest version the server speaks (the library's server   *)
 (* is the SrvMax = 2 instance; lower values model a legacy cache).         *)
 (***************************************************************************)
@@ -23,7 +26,8 @@ CONSTANTS CliInit,      \* version the client starts with
           MaxSteps,     \* client steps
           Window,       \* how many serials back the source keeps diffs
           CliStart,     \* "none" | "stale" | "foreign": what the client remembers at connect
-          KeepLog       \* TRUE: carry the behaviour in `log` (replay emission); FALSE for trace validation
+          KeepLog,      \* TRUE: carry the behaviour in `log` (replay emission); FALSE for trace validation
+          Faults        \* TRUE: the transport may fail while a response is outstanding (ConnLost)
 NoneV == 9
 \* payload items: <<kind, key, val>>; kind = minimum protocol version (0 origin, 1 router key, 2 ASPA)
 Items == { <<0, "o4", 0>>, <<0, "o6", 0>>, <<1, "k1", 0>>, <<2, "c1", 1>>, <<2, "c1", 2>> }
@@ -99,11 +103,11 @@ SrvQuery ==
     /\ phase = "query" /\ ~resp.open
     /\ LET v == CliV IN
        IF connVer # NoneV /\ connVer # v THEN                 \* error 8: version switched
-            /\ phase' = "err" /\ Note([a |-> "fail", step |-> steps + 1])
+            /\ phase' = "err" /\ Note([a |-> "fail", step |-> steps + 1, state |-> cState, data |-> cData])
             /\ UNCHANGED <<hist, timing, connVer, resp, calls, cState, cVer, cData, cTiming, upd, reset, qkind, steps, eod>>
        ELSE IF connVer = NoneV /\ v > SrvMax THEN             \* error 4 carrying SrvMax
             IF cVer # NoneV \/ SrvMax >= 2
-            THEN /\ phase' = "err" /\ Note([a |-> "fail", step |-> steps + 1])
+            THEN /\ phase' = "err" /\ Note([a |-> "fail", step |-> steps + 1, state |-> cState, data |-> cData])
                  /\ UNCHANGED <<hist, timing, connVer, resp, calls, cState, cVer, cData, cTiming, upd, reset, qkind, steps, eod>>
             ELSE /\ cVer' = SrvMax                            \* downgrade once, ask again
                  /\ UNCHANGED <<hist, timing, connVer, resp, calls, cState, cData, cTiming, upd, reset, qkind, phase, steps, eod, log>>
@@ -113,7 +117,7 @@ SrvQuery ==
                     /\ resp' = [open |-> TRUE, items |-> DiffSeq(hist[i].data, Cur.data), target |-> Len(hist)]
                     /\ calls' = calls + 2
                     /\ IF CheckVer(v) THEN cVer' = v /\ phase' = "recv" /\ upd' = <<>> /\ reset' = FALSE /\ UNCHANGED <<log, cState, qkind>>
-                       ELSE phase' = "err" /\ Note([a |-> "fail", step |-> steps + 1]) /\ UNCHANGED <<cVer, upd, reset, cState, qkind>>
+                       ELSE phase' = "err" /\ Note([a |-> "fail", step |-> steps + 1, state |-> cState, data |-> cData]) /\ UNCHANGED <<cVer, upd, reset, cState, qkind>>
                ELSE IF qkind = "serial"
                THEN /\ calls' = calls + 2                      \* cache reset: forget the state, ask again with a reset query
                     /\ cState' = NoneS /\ qkind' = "reset"
@@ -121,7 +125,7 @@ SrvQuery ==
                ELSE /\ resp' = [open |-> TRUE, items |-> FullSeq(Cur.data), target |-> Len(hist)]
                     /\ calls' = calls + 2
                     /\ IF CheckVer(v) THEN cVer' = v /\ phase' = "recv" /\ upd' = <<>> /\ reset' = TRUE /\ UNCHANGED <<log, cState, qkind>>
-                       ELSE phase' = "err" /\ Note([a |-> "fail", step |-> steps + 1]) /\ UNCHANGED <<cVer, upd, reset, cState, qkind>>
+                       ELSE phase' = "err" /\ Note([a |-> "fail", step |-> steps + 1, state |-> cState, data |-> cData]) /\ UNCHANGED <<cVer, upd, reset, cState, qkind>>
             /\ UNCHANGED <<hist, timing, cData, cTiming, steps, eod>>
 SrvSendItem ==
     /\ resp.open /\ resp.items # <<>> /\ phase = "recv"
@@ -145,7 +149,14 @@ CliApply ==
     /\ Note([a |-> "step", step |-> steps + 1, ok |-> TRUE, state |-> cState, ver |-> cVer, reset |-> reset,
              data |-> ApplySeq(IF reset THEN {} ELSE cData, upd), timing |-> cTiming])
     /\ UNCHANGED <<hist, timing, connVer, resp, cState, cVer, cTiming, upd, reset, qkind, eod>>
-Next == SrcUpdate \/ CliBegin \/ SrvQuery \/ SrvSendItem \/ SrvSendEod \/ CliApply
+\* the connection breaks after the server made `calls` source calls of this step; whatever was sent so far may reach the client,
+\* the rest never does; the step fails without the target seeing anything
+ConnLost ==
+    /\ Faults /\ phase \in {"query", "recv"}
+    /\ phase' = "err"
+    /\ Note([a |-> "lost", step |-> steps + 1, at |-> calls, state |-> cState, data |-> cData])
+    /\ UNCHANGED <<hist, timing, connVer, resp, calls, cState, cVer, cData, cTiming, upd, reset, qkind, steps, eod>>
+Next == SrcUpdate \/ CliBegin \/ SrvQuery \/ SrvSendItem \/ SrvSendEod \/ CliApply \/ ConnLost
 Spec == Init /\ [][Next]_vars /\ WF_vars(CliBegin \/ SrvQuery \/ SrvSendItem \/ SrvSendEod \/ CliApply)
 
 \* ---- the property
@@ -160,6 +171,8 @@ VersionOk == phase \in {"recv", "done"} => cVer = connVer /\ cVer <= SrvMax /\ c
 Consistent == (phase = "idle" /\ steps > 0) =>
                 \E i \in 1..Len(hist) : StateOf(hist[i]) = cState /\ cData = RestrictTo(hist[i].data, cVer)
 NoStaleSession == phase = "done" => cState[1] = hist[eod.target].session
+\* a failing step hands nothing to the target and at most makes the client forget its state (cache reset before the failure)
+FailAtomic == [][phase' = "err" => (cData' = cData /\ (cState' = cState \/ cState' = NoneS))]_vars
 \* every started step finishes (or fails), whatever the source does
 Progress == (phase = "query") ~> (phase \in {"idle", "err"})
 =============================================================================
